@@ -95,6 +95,10 @@ BENIGN = [
     ('b29-bvec3a-index-mod', 'src/bool/sse2/bvec3a.rs', '& 0x7', '% 8', ['C08', 'C15'], 'u32 % 8 for & 7'),
     ('b30-affine2-scale-copysign', 'src/f32/affine2.rs', 'self.matrix2.x_axis.length() * math::signum(det),', 'math::copysign(self.matrix2.x_axis.length(), det),', ['C10', 'C07'], 'scale.x through copysign'),
     ('b31-mat4-look-to-normalized-up', 'src/f32/sse2/mat4.rs', 'let s = f.cross(up).normalize();\n        let u = s.cross(f);\n\n        Self::from_cols(\n            Vec4::new(s.x, u.x, -f.x, 0.0),', 'let s = f.cross(up).normalize();\n        let u = s.cross(f).normalize();\n\n        Self::from_cols(\n            Vec4::new(s.x, u.x, -f.x, 0.0),', ['C11', 'C20'], 'look_to_rh re-normalises u (unit already under the documented precondition)'),
+    ('b32-doc-feature-spelled-with-hyphen', 'src/f32/mat3.rs', '/// Will panic if `axis` is not normalized when `glam_assert` is enabled.\n    #[inline]\n    #[must_use]\n    pub fn from_axis_angle', '/// Will panic if `axis` is not normalized when the `glam-assert` feature is enabled.\n    #[inline]\n    #[must_use]\n    pub fn from_axis_angle', ['C20'], 'rustdoc names the cargo feature'),
+    ('b33-comment-between-doc-and-fn', 'src/f32/vec2.rs', '/// Panics if `slice` is less than 2 elements long.\n    #[inline]\n    #[must_use]\n    pub const fn from_slice', '/// Panics if `slice` is less than 2 elements long.\n    // NOTE: const since 0.25.\n    #[inline]\n    #[must_use]\n    pub const fn from_slice', ['C18', 'C20'], 'a plain comment between rustdoc and attributes'),
+    ('b34-doc-says-never-panics', 'src/f64/dvec2.rs', '    #[inline]\n    #[must_use]\n    pub fn normalize_or_zero(self) -> Self {', '    ///\n    /// Unlike [`Self::normalize`], this function will never panic, even when `glam_assert` is enabled.\n    #[inline]\n    #[must_use]\n    pub fn normalize_or_zero(self) -> Self {', ['C20'], 'rustdoc sentence saying the function never panics'),
+    ('b35-look-to-doc-rewrapped', 'src/f32/sse2/mat4.rs', '/// Will panic if `dir` or `up` are not normalized when `glam_assert` is enabled.\n    #[inline]\n    #[must_use]\n    pub fn look_to_rh(', '/// Will panic if `dir` or `up` are not\n    /// normalized when `glam_assert` is enabled.\n    #[inline]\n    #[must_use]\n    pub fn look_to_rh(', ['C20', 'C11'], 'panic sentence wrapped over two doc lines'),
     ('b09-cross-operand-order', 'src/f32/vec3.rs', 'x: self.y * rhs.z - rhs.y * self.z,', 'x: self.y * rhs.z - self.z * rhs.y,', ['C02', 'C03', 'C07', 'C11'], 'commuted product inside cross'),
 ]
 
